@@ -367,8 +367,8 @@ def fold_width(F, rep):
 def negate_on_texts(F, rep, rt_keeps):
     """The folder keeps numbers as text.  Number::negate is evaluated abstractly on concrete texts of each kind (small, negative, the ends of i32 and
     beyond): (kind) the result has the kind the interpreter's negation gives - the kind of the operand - or the folder declines (None: the
-    run-time negation is used); the one exception is the bigint text 2147483648, whose negation spells the int literal `-2147483648` (a
-    literal is lexed without its sign); an int whose negation is not an int (`-(-2147483648)`) must be declined, not labelled int;
+    run-time negation is used) - also for the bigint text 2147483648: `-B2147483648`, `-0x80000000` and `-(2147483648)` are bigints like `-y` with
+    y = 2147483648 (that the *unsuffixed literal* `-2147483648` is an int is the parser's business, which sees the spelling); an int whose negation is not an int (`-(-2147483648)`) must be declined, not labelled int;
     (text) the result is the text of the negated number: `--5` or `make_int -9999999999` is refused by the interpreter, and an integer zero
     stays `0` (the folder's shifts read their amount as an unsigned text: `1 << -0` must fold like `1 << -z` with z = 0 runs)."""
     import absint
@@ -432,7 +432,7 @@ def negate_on_texts(F, rep, rt_keeps):
         "Integer": [("5", "Integer", "-5"), ("-5", "Integer", "5"), ("2147483647", "Integer", "-2147483647"), ("-2147483647", "Integer", "2147483647"),
                     ("-2147483648", None, None), ("0", "Integer", "0")],
         "BigInt": [("5", "BigInt", "-5"), ("-5", "BigInt", "5"), ("9999999999", "BigInt", "-9999999999"), ("-9999999999", "BigInt", "9999999999"),
-                   ("2147483649", "BigInt", "-2147483649"), ("2147483648", "Integer", "-2147483648"), ("0", "BigInt", "0")],
+                   ("2147483649", "BigInt", "-2147483649"), ("2147483648", "BigInt", "-2147483648"), ("0", "BigInt", "0")],
         "Float": [("5.0", "Float", "-5.0"), ("-5.0", "Float", "5.0")],
         "Byte": [("0b101", None, None)],
     }
